@@ -51,6 +51,7 @@ async function build (tier) {
   const leaves = []
   let stats = { states: 1, transitions: 0 }
   {
+    // (the other replacement names are legal identifier names that are not plain ASCII words: `$r0_…`, `ñ1_…`, `Δ$3_…`)
     // every entry is absent or present (full product); independently, up to k entries (quick: 1, thorough: all)
     // get another replacement name, or one of the variants is added
     const dims = ENTRIES.map((e, i) => ({ name: 'e' + i, symbols: [false, true], free: true }))
@@ -61,7 +62,7 @@ async function build (tier) {
     const r = enumerate(dims, { k: 1, valid: (cur, i) => { if (i >= ENTRIES.length && i < 2 * ENTRIES.length && cur['r' + (i - ENTRIES.length)] && !cur['e' + (i - ENTRIES.length)]) return false; return true } })
     stats = addStats(stats, r.stats)
     for (const l of r.leaves) {
-      let methods = ENTRIES.map((e, i) => l.pick['r' + i] ? Object.assign({}, e, { dst: 'r' + i + '_' + e.src }) : e).filter((e, i) => l.pick['e' + i])
+      let methods = ENTRIES.map((e, i) => l.pick['r' + i] ? Object.assign({}, e, { dst: ['$r', 'ñ', 'r', 'Δ$'][i % 4] + i + '_' + e.src }) : e).filter((e, i) => l.pick['e' + i])
       const variant = VARIANTS.find((v) => v.name === l.pick.variant)
       if (variant) methods = variant.prepend ? variant.add.concat(methods) : methods.concat(variant.add)
       const config = Object.assign({ localVarPrefix: 'p', csiMethods: methods }, l.pick.extra ? EXTRAS[l.pick.extra] : {})
@@ -71,7 +72,7 @@ async function build (tier) {
     // every configuration made of <= 2 entries out of the generated entry kinds: source name x operator flag
     // {true, false, omitted} x replacement name {omitted, own, shared} x allowedWithoutCallee {omitted, true, false}
     const KINDS = []
-    for (const src of ['plusOperator', 'tplOperator', 'trim', 'concat', 'aloneMethod']) for (const op of [true, false, undefined]) for (const dst of [undefined, 'd_' + src, 'shared']) for (const awc of [undefined, true, false]) {
+    for (const src of ['plusOperator', 'tplOperator', 'trim', 'concat', 'aloneMethod']) for (const op of [true, false, undefined]) for (const dst of [undefined, 'd$ñ_' + src, 'shared']) for (const awc of [undefined, true, false]) {
       const e = { src }
       if (op !== undefined) e.operator = op
       if (dst !== undefined) e.dst = dst
